@@ -7,9 +7,10 @@
 (*                                                                         *)
 (*   integer : 8 limbs, two's complement (int64)                           *)
 (*   float   : [c, n, m, e]  class c in zero / fin / inf / nan, sign n,    *)
-(*             value m * 2^e with 2^52 <= m < 2^53 (normal doubles only;   *)
-(*             c = "und" marks a result this model does not determine:     *)
-(*             subnormals, and what the manual leaves open)                *)
+(*             value m * 2^e with 2^52 <= m < 2^53; normal doubles have    *)
+(*             e >= -1074, subnormal ones e < -1074 with the value a       *)
+(*             multiple of 2^-1074 (gradual underflow);                    *)
+(*             c = "und" marks a result this model does not determine      *)
 (*                                                                         *)
 (* Pure operators only (no variables): LuaNumMC enumerates cases for C02,  *)
 (* NumFor builds the numeric for loop (C16) on top.                        *)
@@ -60,24 +61,31 @@ FInf(n) == [c |-> "inf", n |-> n, m |-> Z8, e |-> 0]
 FNaN == [c |-> "nan", n |-> FALSE, m |-> Z8, e |-> 0]
 FUnd == [c |-> "und", n |-> FALSE, m |-> Z8, e |-> 0]
 FAny == [c |-> "any", n |-> FALSE, m |-> Z8, e |-> 0]       \* some float (only the subtype is determined)
-Fin(n, m, e) == IF e > 971 THEN FInf(n) ELSE IF e < -1074 THEN FUnd ELSE [c |-> "fin", n |-> n, m |-> m, e |-> e]
+Fin(n, m, e) == IF e > 971 THEN FInf(n) ELSE [c |-> "fin", n |-> n, m |-> m, e |-> e]
 FNeg(f) == IF f.c \in {"nan", "und", "any", "zany"} THEN f ELSE [f EXCEPT !.n = ~f.n]
 FIsNum(f) == f.c \in {"zero", "fin", "inf", "nan"}
 
-(* round the natural mm (any limb count >= 8, non-zero) times 2^e, followed by lower-order bits that are
-   non-zero iff sticky, to 53 bits, nearest-even: <<float, exact>> *)
+(* the natural q (at most 54 bits, low bit 0 if 54) times 2^e in normal form (53-bit m) *)
+NormF(neg, q, e) ==
+  LET L == BitLen(q) IN
+  IF L > 53 THEN Fin(neg, Resize(Shr(q, L - 53), 8), e + (L - 53)) ELSE Fin(neg, Resize(Shl(q, 53 - L), 8), e - (53 - L))
+(* round the natural mm (any limb count >= 8) times 2^e, followed by lower-order bits that are non-zero iff
+   sticky, to the nearest double, ties to even: 53 significant bits, or fewer when the result is subnormal
+   (it must be a multiple of 2^-1074); overflow gives infinity, underflow zero.  <<float, exact>> *)
 RoundFX(neg, mm, e, sticky) ==
   LET L == BitLen(mm) IN
   IF L = 0 THEN <<IF sticky THEN FUnd ELSE FZero(neg), ~sticky>>
-  ELSE IF L <= 53 THEN <<IF sticky THEN FUnd ELSE Fin(neg, Resize(Shl(mm, 53 - L), 8), e - (53 - L)), ~sticky>>
-  ELSE LET d == L - 53
-           q == Shr(mm, d)
-           half == Bit(mm, d - 1) = 1
-           st == sticky \/ ~LowBitsZero(mm, d - 1)
-           up == half /\ (st \/ (q[1] % 2) = 1)
-           q1 == IF up THEN Add(q, FromNat(1, Len(mm))) ELSE q
-           ovf == BitLen(q1) = 54
-       IN <<Fin(neg, Resize(IF ovf THEN Shr(q1, 1) ELSE q1, 8), IF ovf THEN e + d + 1 ELSE e + d), ~half /\ ~st>>
+  ELSE LET d0 == L - 53                  \* bits to drop for 53 significant bits
+           d1 == -1074 - e               \* bits to drop so that the unit is 2^-1074
+           d == IF d0 > d1 THEN d0 ELSE d1
+       IN IF d <= 0 THEN <<IF sticky THEN FUnd ELSE NormF(neg, mm, e), ~sticky>>
+          ELSE IF d > L THEN <<FZero(neg), FALSE>>           \* below half of the smallest subnormal
+          ELSE LET q == Shr(mm, d)
+                   half == Bit(mm, d - 1) = 1
+                   st == sticky \/ ~LowBitsZero(mm, d - 1)
+                   up == half /\ (st \/ (q[1] % 2) = 1)
+                   q1 == IF up THEN Add(q, FromNat(1, Len(mm))) ELSE q
+               IN <<IF IsZero(q1) THEN FZero(neg) ELSE NormF(neg, q1, e + d), ~half /\ ~st>>
 RoundF(neg, mm, e) == RoundFX(neg, mm, e, FALSE)[1]
 (* mm * 2^e when it is exactly a normal double, else FUnd *)
 ExactF(neg, mm, e) == LET r == RoundFX(neg, mm, e, FALSE) IN IF r[2] THEN r[1] ELSE FUnd
@@ -87,6 +95,7 @@ FBits(f) ==
   LET s == IF f.n THEN 2048 ELSE 0 IN
   IF f.c = "zero" THEN Shl(FromNat(s, 8), 52)
   ELSE IF f.c = "inf" THEN Shl(FromNat(s + 2047, 8), 52)
+  ELSE IF f.e < -1074 THEN Add(Shr(f.m, -1074 - f.e), Shl(FromNat(s, 8), 52))      \* subnormal: exponent field 0
   ELSE Add(Sub(f.m, Pow2(52, 8)), Shl(FromNat(s + f.e + 1075, 8), 52))
 
 (* integer -> float.  Manual 3.4.3: exact when representable, otherwise "the nearest higher or the nearest
@@ -156,7 +165,7 @@ ICmpF(x, f) ==
 
 (* ------------------------------------------------------------------------ *)
 (* float arithmetic: exact dyadic result, then one rounding to nearest-even (IEEE 754, which the manual
-   names as the usual float arithmetic); subnormal results are "und" *)
+   names as the usual float arithmetic), gradual underflow included *)
 FAdd(a, b) ==
   IF ~FIsNum(a) \/ ~FIsNum(b) THEN FUnd
   ELSE IF a.c = "nan" \/ b.c = "nan" THEN FNaN
@@ -212,25 +221,39 @@ FIdiv(a, b) ==
      ELSE IF qx[2] \/ (q.e < 0 /\ ~(-q.e <= 52 /\ LowBitsZero(q.m, -q.e))) THEN FFloorF(q, FALSE)
      ELSE FUnd
 
-(* scale two finite floats by a common power of two so that both are int64: [ok, a, b, s] *)
-Scale2(a, b) ==
-  LET mn == IF a.e < b.e THEN a.e ELSE b.e
-      s == IF mn < 0 THEN -mn ELSE 0
-      ia == FToI([a EXCEPT !.e = a.e + s])
-      ib == FToI([b EXCEPT !.e = b.e + s])
-  IN [ok |-> ia.ok /\ ib.ok, a |-> ia.v, b |-> ib.v, s |-> s]
+(* x * y mod m and 2^d mod m for 8-limb x, y < m, 2^52 <= m < 2^53 *)
+MulMod(x, y, m) == Resize(DivModK(MulFull(x, y), Resize(m, 16))[2], 8)
+DblMod(x, m) == LET t == MulSmallC(x, 2, 0)[1] IN IF GeqU(t, m) THEN Sub(t, m) ELSE t
+RECURSIVE P2M(_, _, _, _)
+P2M(d, m, i, x) == \* left-to-right square and double over the bits i..0 of d
+  IF i < 0 THEN x
+  ELSE LET sq == MulMod(x, x, m)
+           nx == IF (d \div Pow2s(i)) % 2 = 1 THEN DblMod(sq, m) ELSE sq
+       IN IF Len(nx) = 8 THEN P2M(d, m, i - 1, nx) ELSE <<>>
+Pow2Mod(d, m) == P2M(d, m, 11, One8)                 \* 0 <= d < 4096
 
-(* a % b = a - floor(a/b)*b on floats; trunc = TRUE gives math.fmod (quotient rounded toward zero).
-   Determined here for finite operands with a common int64 scaling; zero results have an open sign *)
+(* the exact remainder of a / b with the quotient truncated toward zero, finite non-zero a and b: it has the
+   sign of a, |r| < |b|, and is always a double (a multiple of the unit of b below |b|).  A zero remainder is
+   returned as FZAny (the manual does not fix its sign) *)
+FRemT(a, b) ==
+  IF a.e < b.e \/ (a.e = b.e /\ CmpU(a.m, b.m) < 0) THEN a          \* |a| < |b|
+  ELSE LET d == a.e - b.e
+           r == IF b.m = Pow2(52, 8) /\ d >= 52 THEN Z8             \* b is a power of two dividing a
+                ELSE IF d <= 64 THEN Resize(DivModK(Shl(Resize(a.m, 16), d), Resize(b.m, 16))[2], 8)
+                ELSE MulMod(DivModK(a.m, b.m)[2], Pow2Mod(d, b.m), b.m)
+       IN IF IsZero(r) THEN FZAny ELSE NormF(a.n, r, b.e)
+
+(* a % b = a - floor(a/b)*b on floats (trunc = FALSE) and math.fmod (trunc = TRUE: quotient rounded toward zero).
+   For finite a and finite non-zero b the truncated remainder is exact; the floored one is it, or it plus b when
+   it is non-zero and its sign differs from b's (one float addition).  Zero results have an open sign; an
+   infinite a, a zero or infinite b are left open *)
 FModX(a, b, trunc) ==
   IF ~FIsNum(a) \/ ~FIsNum(b) THEN FUnd
   ELSE IF a.c = "nan" \/ b.c = "nan" THEN FNaN
   ELSE IF a.c = "inf" \/ b.c # "fin" THEN FUnd
   ELSE IF a.c = "zero" THEN FZAny
-  ELSE LET sc == Scale2(a, b) IN
-       IF ~sc.ok THEN FUnd
-       ELSE LET r == IF trunc THEN ITruncRem(sc.a, sc.b) ELSE IDivMod(sc.a, sc.b)[2]
-            IN IF IsZero(r) THEN FZAny ELSE RoundF(IsNegS(r), MagS(r), -sc.s)
+  ELSE LET r == FRemT(a, b) IN
+       IF trunc \/ r.c = "zany" \/ r.n = b.n THEN r ELSE FAdd(r, b)
 
 (* ------------------------------------------------------------------------ *)
 (* Lua values and results                                                   *)
@@ -504,12 +527,15 @@ LatFQ == <<FZero(FALSE), FZero(TRUE), FL(FALSE, 1, -1), FL(TRUE, 1, -1), FL(FALS
            FL(FALSE, 1, 6), FL(FALSE, 1, 53), FL(TRUE, 1, 53), FLb(FALSE, Add(P2(52), One8), 1),
            FL(FALSE, 1, 63), FL(TRUE, 1, 63), FL(FALSE, 1, 64), FL(TRUE, 1, 64), FLb(FALSE, M53, 10),
            FLb(FALSE, M53, 971), FLb(TRUE, M53, 971), FLb(FALSE, M53, -1), FLb(FALSE, Tenth, -56),
+           FL(FALSE, 1, -700), FL(TRUE, 1, -700), FL(FALSE, 3, -700), FL(TRUE, 3, -700), FL(FALSE, 1, -1000),
+           FL(FALSE, 1, -1022), FL(FALSE, 1, -1074), FL(TRUE, 3, -1074),           \* smallest normal; subnormals
            FInf(FALSE), FInf(TRUE), FNaN>>
 LatFT == LatFQ \o <<FL(TRUE, 2, 0), FL(FALSE, 7, 0), FL(TRUE, 7, 0), FL(TRUE, 5, -1), FL(FALSE, 7, -1), FL(FALSE, 3, -2),
            FL(FALSE, 63, 0), FL(TRUE, 1, 6), FL(FALSE, 65, 0), FL(FALSE, 255, 0), FL(FALSE, 1, 31), FL(FALSE, 1, 32),
            FL(FALSE, 1, 62), FL(TRUE, 1, 62), FLb(FALSE, M53, 0), FLb(TRUE, M53, 0), FLb(FALSE, Add(P2(52), One8), -1),
            FLb(TRUE, M53, 10), FLb(FALSE, Add(P2(52), One8), 11), FLb(TRUE, Add(P2(52), One8), 11),
-           FL(FALSE, 1, 1023), FL(TRUE, 1, 1023), FL(FALSE, 1, -1022), FL(TRUE, 1, -1022), FL(FALSE, 1, 100),
+           FL(FALSE, 1, 1023), FL(TRUE, 1, 1023), FL(TRUE, 1, -1000), FL(TRUE, 1, -1022), FL(FALSE, 1, 100),
+           FL(TRUE, 1, -1074), FL(FALSE, 3, -1074), FL(FALSE, 5, -1073), FLb(FALSE, Sub(P2(52), One8), -1074), FLb(FALSE, Tenth, -756),
            FLb(TRUE, Tenth, -56), FL(FALSE, 1, -1), FL(FALSE, 1000000007, 0), FL(FALSE, 1, 52), FL(FALSE, 5, 0), FL(TRUE, 5, 0)>>
 
 MkLat(ints, flts) == [i \in 1..(Len(ints) + Len(flts)) |-> IF i <= Len(ints) THEN VI(ints[i]) ELSE VF(flts[i - Len(ints)])]
